@@ -280,6 +280,12 @@ class CallMixin:
             raise Unsupported("inline depth exceeded at %s" % qn)
         if any(isinstance(n, (ast.Yield, ast.YieldFrom, ast.Await)) for n in ast.walk(fn)):
             raise Unsupported("generator/await in %s" % qn)
+        # a decorator replaces the function by something else (a cache, a wrapper ...): only the ones with a modelled meaning are accepted
+        for d in getattr(fn, "decorator_list", []) or []:
+            dn = d.id if isinstance(d, ast.Name) else d.attr if isinstance(d, ast.Attribute) else (d.func.id if isinstance(d, ast.Call) and isinstance(d.func, ast.Name) else
+                                                                                             d.func.attr if isinstance(d, ast.Call) and isinstance(d.func, ast.Attribute) else "?")
+            if dn not in ("property", "staticmethod", "classmethod", "abstractmethod", "dataclass", "setter", "overload", "wraps"):
+                raise Unsupported("%s is decorated with @%s, whose effect on the function is not modelled" % (qn, dn))
         env, err = self.bind_params(fn, args, kw, st, cx, mod, qn)
         if err is not None:
             if not cx.spec:
